@@ -8,8 +8,11 @@ import (
 )
 
 var commands = map[string]func([]string){
-	"sweep":   cmdSweep,
-	"mockrun": cmdMockRun,
+	"sweep":     cmdSweep,
+	"mockrun":   cmdMockRun,
+	"window":    cmdWindow,
+	"mocklife":  cmdMockLife,
+	"stability": cmdStability,
 }
 
 func main() {
